@@ -49,13 +49,17 @@ def run(cx):
 
     cx.guard(_r17a, cx, clone, hc_init, base_init)
     cx.guard(_self_wraps, cx, repo)
-    cx.guard(_r17b, cx, repo, do_req, ra_init, ra_args)
+    from sa.inline import inlined
+    do_req_inl, inl_names = inlined(repo.mod(REL), do_req)
+    cx.guard(_r17b, cx, repo, do_req_inl, ra_init, ra_args)
     cx.guard(_r17c, cx, repo, base, base_init, clone, mc_init)
     cx.guard(_r17d, cx, repo, do_req, base_init)
     cx.guard(_r17e, cx, repo)
     cx.guard(_r17f, cx, get_conn)
-    cx.guard(_r17g, cx, do_req)
-    cx.guard(_r17h, cx, do_req)
+    if inl_names:
+        cx.note(f"R17g/R17h analyse do_request with its private helpers inlined: {inl_names}")
+    cx.guard(_r17g, cx, do_req_inl)
+    cx.guard(_r17h, cx, do_req_inl)
 
 
 # ------------------------------------------------------------------------------------------------ R17a
@@ -543,21 +547,31 @@ def _r17g(cx, do_req):
     cx.ob("R17g", op[0] if op else do_req, ok, "the assembled request is the one sent" if ok else "another object is sent")
     # url = address + path (+ '?' + urlencode(params))
     urls = [v for _, v in assignments(do_req, url.id)] if isinstance(url, ast.Name) else []
-    ok = len(urls) == 1 and isinstance(urls[0], ast.BinOp) and isinstance(urls[0].op, ast.Add) and is_name(urls[0].left, "address") and is_name(urls[0].right, "path")
+    def path_var(e):
+        """a name holding the (possibly extended) path: `path` itself or a local initialised from it"""
+        return isinstance(e, ast.Name) and (e.id == "path" or any(v is not None and is_name(v, "path") for _, v in assignments(do_req, e.id)))
+    ok = len(urls) == 1 and isinstance(urls[0], ast.BinOp) and isinstance(urls[0].op, ast.Add) and is_name(urls[0].left, "address") and path_var(urls[0].right)
     cx.ob("R17g", c, ok, "url = address + path" if ok else "url is not address + path", stmt="url = address + path")
     enc = [x for x in walk_local(do_req) if isinstance(x, ast.Call) and call_name(x) == "urlencode"]
     ok = len(enc) == 1 and is_name(enc[0].args[0], "params") and any(is_name(e, "params") and pol for e, pol in facts(enc[0]))
     cx.ob("R17g", enc[0] if enc else do_req, ok, "params are url-encoded onto the path when present" if ok else "params are not url-encoded exactly when present")
     if enc:
         st = enclosing_stmt(enc[0])
-        ok = isinstance(st, ast.AugAssign) and is_name(st.target, "path") and isinstance(st.value, ast.BinOp) and const(st.value.left, str) and st.value.left.value == "?"
+        ok = isinstance(st, ast.AugAssign) and path_var(st.target) and isinstance(st.value, ast.BinOp) and const(st.value.left, str) and st.value.left.value == "?"
         cx.ob("R17g", st, ok, "path += '?' + urlencode(params)" if ok else "query string is not appended as '?' + urlencode(params)", stmt=norm(st) + " [form]")
 
 
 # ------------------------------------------------------------------------------------------------ R17h
 def _r17h(cx, do_req):
-    blk = [st for st in do_req.body if isinstance(st, ast.If) and any(isinstance(x, ast.Assign) and is_name(x.targets[0], "req_data") for x in ast.walk(st))]
-    cx.need(len(blk) == 1, "R17h", do_req, "body-encoding dispatch assigning req_data")
+    # the segment between unpacking the (adapter-processed) arguments and building the urllib Request is interpreted over the
+    # finite kinds of `data` / `method`; what reaches Request(data=.., method=..) is compared with the specification
+    un = [st for st in do_req.body if isinstance(st, ast.Assign) and isinstance(st.targets[0], ast.Tuple) and isinstance(st.value, ast.Call) and call_name(st.value) == "args"]
+    rq = [st for st in do_req.body if any(isinstance(c, ast.Call) and dotted(c.func) in ("urllib.request.Request", "Request") for c in ast.walk(st))]
+    cx.need(len(un) == 1 and len(rq) == 1, "R17h", do_req, "argument unpacking and Request construction at the top level of do_request")
+    seg = do_req.body[do_req.body.index(un[0]) + 1:do_req.body.index(rq[0])]
+    rcall = next(c for c in ast.walk(rq[0]) if isinstance(c, ast.Call) and dotted(c.func) in ("urllib.request.Request", "Request"))
+    kw = {k.arg: k.value for k in rcall.keywords}
+    cx.need("data" in kw and "method" in kw, "R17h", rcall, "Request(data=.., method=..)")
 
     def hook(it, e, env):
         nm = call_name(e)
@@ -574,7 +588,15 @@ def _r17h(cx, do_req):
             v = it.ev(e.args[0], env)
             extra = tuple(sorted(k.arg for k in e.keywords))
             return K("str", None, ("json", getattr(v, "tag", repr(v))) + extra)
+        if nm == "upper" and isinstance(e.func, ast.Attribute) and not e.args:
+            recv = e.func.value
+            if isinstance(recv, ast.Call) and call_name(recv) == "str" and len(recv.args) == 1:
+                v = it.ev(recv.args[0], env)
+                return K("str", False, ("upper", getattr(v, "tag", repr(v))))
+            v = it.ev(recv, env)
+            return K("str", False, ("upper", getattr(v, "tag", repr(v))))
         return None
+    base_env = {"address": K("str", False, "addr"), "path": K("str", None, "path"), "params": C(None), "headers": K("dict", None, "hdr"), "method": C(None), "data": C(None)}
     cases = [("None", C(None), ("none",)), ("bytes", K("bytes", None, "input"), ("same",)), ("str", K("str", None, "input"), ("encode", "input", "utf8")),
              ("dict", K("dict", None, "input"), ("encode", ("json", "input"), "utf8")), ("list", K("list", None, "input"), ("encode", ("json", "input"), "utf8")),
              ("other object", K("other", None, "input"), ("encode", ("json", "input"), "utf8")),
@@ -582,13 +604,16 @@ def _r17h(cx, do_req):
              ("empty dict", K("dict", True, "input"), ("encode", ("json", "input"), "utf8")), ("empty list", K("list", True, "input"), ("encode", ("json", "input"), "utf8"))]
     for label, val, want in cases:
         it = Interp(call_hook=hook)
-        outs = it.run(blk, {"data": val, "headers": K("dict", None, "hdr")})
+        env = dict(base_env)
+        env["data"] = val
+        outs = it.run(seg, env)
         got = set()
         for o in outs:
-            v = o.env.get("req_data")
             if o.how != "fall":
                 got.add((o.how, str(o.value)))
-            elif isinstance(v, C) and v.v is None:
+                continue
+            v = it.ev(kw["data"], o.env)
+            if isinstance(v, C) and v.v is None:
                 got.add(("none",))
             elif isinstance(v, K) and v.tag == "input":
                 got.add(("same",))
@@ -597,19 +622,53 @@ def _r17h(cx, do_req):
             else:
                 got.add(("?", repr(v)))
         ok = got == {want}
-        cx.ob("R17h", blk[0], ok, f"data of kind {label}: body is {want}" if ok else f"data of kind {label}: body becomes {sorted(map(str, got))}, expected {want}", stmt=f"body for {label}")
+        cx.ob("R17h", rcall, ok, f"data of kind {label}: body is {want}" if ok else f"data of kind {label}: body becomes {sorted(map(str, got))}, expected {want}", stmt=f"body for {label}")
+    # method: given -> upper-cased str(method); absent -> POST with a (truthy) body, GET without
+    mcases = [("None, no body", C(None), C(None), "GET"), ("None, body", C(None), K("dict", False, "input"), "POST"), ("None, empty body", C(None), K("dict", True, "input"), "GET"),
+              ("'', body", C(""), K("str", False, "input"), "POST"), ("given", K("str", False, "m"), C(None), ("upper", "m")), ("given, body", K("other", False, "m"), K("dict", False, "input"), ("upper", "m"))]
+    for label, mval, dval, want in mcases:
+        it = Interp(call_hook=hook)
+        env = dict(base_env)
+        env["method"], env["data"] = mval, dval
+        got = set()
+        for o in it.run(seg, env):
+            if o.how != "fall":
+                got.add((o.how, str(o.value)))
+                continue
+            v = it.ev(kw["method"], o.env)
+            got.add(v.v if isinstance(v, C) else v.tag if isinstance(v, K) else repr(v))
+        ok = got == {want}
+        cx.ob("R17h", rcall, ok, f"method {label}: {want}" if ok else f"method {label}: request method becomes {sorted(map(str, got))}, expected {want}", stmt=f"method for {label}")
     # Content-Type default only for the JSON branch and only when absent
-    cts = [n for n in ast.walk(blk[0]) if isinstance(n, ast.Subscript) and isinstance(n.ctx, ast.Store) and const(n.slice, str) and n.slice.value.lower() == "content-type"]
+    cts = [n for st in seg for n in ast.walk(st) if isinstance(n, ast.Subscript) and isinstance(n.ctx, ast.Store) and const(n.slice, str) and n.slice.value.lower() == "content-type"]
     ok = len(cts) == 1
     if ok:
-        fs = {(norm(e), pol) for e, pol in facts(cts[0])}
         st = enclosing_stmt(cts[0])
-        ok = ("'Content-Type' not in headers", True) in fs and ("isinstance(data, str)", False) in fs and ("isinstance(data, bytes)", False) in fs and norm(st.value) == "'application/json'" and cts[0].slice.value == "Content-Type"
-    cx.ob("R17h", cts[0] if cts else blk[0], ok, "JSON bodies get Content-Type: application/json unless the caller set one" if ok else "Content-Type default is not (JSON branch only, only when absent, same key)")
-    # method default
-    mb = [st for st in do_req.body if isinstance(st, ast.If) and norm(st.test) == "not method"]
-    ok = len(mb) == 1 and [norm(x) for x in mb[0].body] == ["method = 'POST' if data else 'GET'"] and [norm(x) for x in mb[0].orelse] == ["method = str(method).upper()"]
-    cx.ob("R17h", mb[0] if mb else do_req, ok, "method: given one upper-cased, else POST with a body / GET without" if ok else "method defaulting altered")
+
+        def is_data(e):     # `data` or a local initialised from it
+            return isinstance(e, ast.Name) and (e.id == "data" or any(v is not None and is_name(v, "data") for _, v in assignments(do_req, e.id)))
+        fs = facts(cts[0])
+        absent = any(isinstance(e, ast.Compare) and len(e.ops) == 1 and const(e.left, str) and e.left.value == "Content-Type" and norm(e.comparators[0]) == norm(cts[0].value) and
+                     (isinstance(e.ops[0], ast.NotIn) and pol or isinstance(e.ops[0], ast.In) and not pol) for e, pol in fs)
+
+        def not_type(t):
+            return any(isinstance(e, ast.Call) and call_name(e) == "isinstance" and not pol and is_data(e.args[0]) and
+                       (is_name(e.args[1], t) or isinstance(e.args[1], ast.Tuple) and any(is_name(x, t) for x in e.args[1].elts)) for e, pol in fs)
+        # which kinds of data reach the store: decided by interpreting the segment per kind and recording the store
+        reach = {}
+        for label, val, _w in cases:
+            it = Interp(call_hook=hook)
+            it.record_stores = True
+            env = dict(base_env)
+            env["data"] = val
+            hit = False
+            for o in it.run(seg, env):
+                hit = hit or any(ev_[0] == "store" and ev_[4] is st for ev_ in o.env.get("@events", ()))
+            reach[label] = hit
+        json_kinds = {"dict", "list", "other object", "empty dict", "empty list"}
+        kinds_ok = all(reach[k] == (k in json_kinds) for k in reach)
+        ok = absent and kinds_ok and norm(st.value) == "'application/json'" and cts[0].slice.value == "Content-Type"
+    cx.ob("R17h", cts[0] if cts else rcall, ok, "JSON bodies get Content-Type: application/json unless the caller set one" if ok else "Content-Type default is not (JSON branch only, only when absent, same key)")
     # response decoding
     rd = [st for st in do_req.body if isinstance(st, ast.If) and norm(st.test) == "not raw_response"]
     ok = len(rd) == 1 and any("decode('utf-8')" in norm(x) for x in rd[0].body) and any("json.loads" in norm(x) for x in ast.walk(rd[0])) and [norm(x) for x in rd[0].orelse] == ["ret_val = response"]
